@@ -10,7 +10,7 @@ from .world import ACTIVE, ACTORS, BAL, ainfo, attr_events, b64, dec_str
 DEFAULT_W = {
     "swap": 30, "swap_window": 4, "swap_malformed": 5, "provide": 12, "provide_first": 4, "withdraw": 10,
     "route": 12, "donate": 5, "lp_burn": 2, "lp_transfer": 2, "unauth": 3, "transfer": 1,
-    "provide_malformed": 3, "add_decimals": 1, "route_bad": 2, "intent": 8,
+    "provide_malformed": 3, "add_decimals": 1, "route_bad": 2, "intent": 8, "owner_admin": 1,
 }
 
 
@@ -468,6 +468,17 @@ class HistGen:
                 "msg": {"add_native_token_decimals": {"denom": nat[1], "decimals": dec}}, "funds": [],
                 "sem": {"denom": nat[1], "decimals": dec}}, []
 
+    def g_owner_admin(self):
+        """legitimate privileged operations by the owner: they must not change how pairs trade"""
+        w, rng = self.w, self.rng
+        p = self.pair()
+        c, m = rng.choice([
+            (w.factory, {"migrate_pair": {"contract": p.addr, "code_id": rng.choice([None, w.codes["pair2"], w.codes["pair"]])}}),
+            (w.factory, {"update_config": {"owner": None, "token_code_id": rng.choice([None, w.codes["cw20"]]), "pair_code_id": rng.choice([None, w.codes["pair2"]])}}),
+            (w.factory, {"migrate_pair": {"contract": p.addr, "code_id": w.codes["pair2"]}}),
+        ])
+        return {"kind": "owner_admin", "actor": "owner", "contract": c, "msg": m, "funds": [], "sem": {"pair": p}}, []
+
     # -- intents: quote now, execute after k foreign ops ---------------------------
     def make_intent(self):
         w, rng = self.w, self.rng
@@ -619,6 +630,8 @@ class HistGen:
             return self.g_transfer()
         if k == "add_decimals":
             return self.g_add_decimals()
+        if k == "owner_admin":
+            return self.g_owner_admin()
         return self.g_swap()
 
     def seed_liquidity(self):
